@@ -5,5 +5,6 @@ export VERIF_TIER="${2:-${VERIF_TIER:-quick}}"
 case "$1" in
   C04) exec python3-vt checks/lookup.py C04 ;;
   C05) exec python3-vt checks/c05.py ;;
+  C13) exec python3-vt checks/c13.py ;;
   *) echo "unknown property $1"; exit 2 ;;
 esac
